@@ -315,7 +315,7 @@ def check(tier: str) -> int:
     if len(cases) < 6:
         raise core.MachineryError("too few launch behaviours emitted")
     jobs = []
-    variants = [("dir", [], 1, None), ("file", [], 1, None), ("dir", ["--run-space-launch-id", "LAUNCH-X", "--run-space-attempt", "2"], 2, "LAUNCH-X"),
+    variants = [("dir", [], 1, None), ("file", [], 1, None), ("dir", ["--run-space-launch-id", "nightly:2026-10-05 #1 \u03b1", "--run-space-attempt", "2"], 2, "nightly:2026-10-05 #1 \u03b1"),
                 ("dir", ["--run-space-idempotency-key", "IDEM"], 1, None),
                 ("file", ["--run-space-idempotency-key", "IDEM3", "--run-space-attempt", "3"], 3, None)]
     if tier == "thorough":
